@@ -197,9 +197,25 @@ def strat_restart(draw):
             's': S, 'a': a, 'b': draw(st.one_of(st.none(), st.integers(a + 1, n))), 'top': True}
 
 
+def enum_small(tier):
+    """every value of the small scopes x every apply_formatting call of the same scope"""
+    for names, depth, text in gen.small_scopes(tier):
+        calls = gen.small_steps(names, removes=False, n=len(text))
+        for i, p in enumerate(gen.small_values(names, depth, text)):
+            for c in calls:
+                yield {'p': p, 's': c['s'], 'a': c['a'], 'b': c['b'], 'top': c['top']}
+            if i % 7 == 0:
+                q = dict(p, cls='s')
+                for c in calls[::5]:
+                    yield {'p': q, 's': c['s'], 'a': c['a'], 'b': c['b'], 'top': c['top']}
+
+
 SUBS = [
     Sub('apply_after_restart', eval_apply, strategy=strat_restart, quick=300, thorough=5000,
         rule='a setting inserted below (topmost=False) and removed again, then a topmost application across its former start'),
+    Sub('small_exhaustive', eval_apply, enumerate=enum_small,
+        rule='every value reachable from a plain text by <= 2 apply/remove steps over {red, blue, bold} on 3 characters and by <= 3 steps over {red, blue} on 2 characters (thorough: 3) - all ranges, topmost both ways, x every apply_formatting call of the same scope',
+        exhaustive_note='all values of the small scopes x all apply_formatting calls of that scope'),
     Sub('apply', eval_apply, strategy=strat, quick=500, thorough=8000),
     Sub('apply_conflict', eval_apply, strategy=strat_under, quick=600, thorough=10000,
         rule='small values with staggered conflicting settings; the new settings conflict with what is there'),
